@@ -111,6 +111,20 @@ class C17(vlib.Check):
         known_shapes = [(b'{}{}', ['s:c3', 's:a9']), (b'\xc3{}', ['s:a9']), (b'{.1}\xa9', ['S:c3a9c3a9'[:4]]), (b'{_\xc33}\xa9\xc3\xa9\xc3\xa9', ['s:41'])
                         , (b'{_\xe94}', ['i32:7']), (b'{}\x80', ['S:e282']), (b'{.2}{}', ['s:f09f9880', 's:9880'])]
         pairs += known_shapes
+        # long chunks: one argument / one literal run larger than typical block sizes (1024, 2048, 4096 bytes) with a
+        # 2/3/4-byte character at every alignment across the block boundary (a sink that transcodes or writes
+        # block-wise must not cut a character), and paddings longer than a block
+        for block in ((1024, 2048, 4096) if not quick else (1024, 4096)):
+            for ch in (U('é'), U('€'), U('\U0001F600')):
+                for lead in range(block - len(ch), block + 1):
+                    t = b'x' * lead + ch + b'y' * 7
+                    pairs.append((b'{}', ['S:' + hx(t)]))
+                    if lead % 2 == 0:
+                        pairs.append((b'[{}]', ['s:' + hx(t)]))
+                t = b'x' * (block - 2) + ch
+                pairs.append((t + b'{}' + t, ['i32:7']))
+            pairs.append((b'{%d}|' % (block + 3), ['s:' + hx(U('é'))]))
+            pairs.append((b'{>%d}' % (block + 1), ['i32:-5']))
         # seeded soups
         nrand = 500 if quick else 12000
         for _ in range(nrand):
